@@ -92,7 +92,7 @@ func init() {
 				return fmt.Sprintf("thread %d: %s\t!memoized function returned a wrong value under concurrency", i, r)
 			}
 		}
-		if o := w.evalObs(context.Background(), "(msq 7)"); o != "ok I49" {
+		if o := evalW(w, "(msq 7)"); o != "ok I49" {
 			return o + "\t!memoize cache unusable after concurrent use"
 		}
 		return "ok"
